@@ -178,3 +178,37 @@ func VerifH_C03_nestedPaths() {
 	}
 	vCover("nested")
 }
+
+// maps whose values are maps: re-assembly gives every outer entry its own inner map
+type verifRecMM struct {
+	K  int32                       `parquet:"k"`
+	MM map[string]map[string]int64 `parquet:"mm"`
+}
+
+func VerifH_C03_nestedMapsReassemble() {
+	vUnwind(512)
+	v := verifRecMM{K: vI32("k")}
+	switch vChoose("outer", 0, 2) {
+	case 1:
+		v.MM = map[string]map[string]int64{"a": {"x": vI64("ax")}}
+	case 2:
+		v.MM = map[string]map[string]int64{"a": {"x": vI64("ax")}, "b": {"y": vI64("by"), "z": 3}}
+	}
+	schema := SchemaOf(v)
+	row := schema.Deconstruct(nil, &v)
+	var back verifRecMM
+	if err := schema.Reconstruct(&back, row); err != nil {
+		vAssert(false, "the shredded row re-assembles")
+		return
+	}
+	vAssert(back.K == v.K && len(back.MM) == len(v.MM), "outer map size re-assembles")
+	for ok, inner := range v.MM {
+		got, present := back.MM[ok]
+		vAssert(present && len(got) == len(inner), "every outer entry has an inner map of its own size")
+		for ik, x := range inner {
+			y, has := got[ik]
+			vAssert(has && y == x, "inner map entries re-assemble under their own outer key")
+		}
+	}
+	vCover("nested maps")
+}
